@@ -20,7 +20,7 @@ Inductive value :=
 | VBool (b : bool)
 | VInt (z : Z)
 | VFloat (sci : bool) (bits : Z)     (* SexpFloat{Val, Scientific}; Val by its IEEE-754 bits *)
-| VStr (s : list Z)
+| VStr (raw : bool) (s : list Z)      (* SexpStr{S, backtick}: raw = came from a backtick literal *)
 | VArr (l : list value)
 | VHash (tn : list Z) (fs : list (key * value)).   (* TypeName, fields in KeyOrder order *)
 
@@ -102,7 +102,7 @@ Fixpoint to_json (v : value) : list Z :=
   | VBool b => if b then b_true else b_false
   | VInt z => dec z
   | VFloat sci bits => if float_finite bits then float_token sci bits else b_null
-  | VStr s => json_quote s
+  | VStr _ s => json_quote s                          (* the raw flag plays no part *)
   | VArr l =>                                             (* jsonArrayHelper *)
       match l with
       | [] => [91;93]
@@ -345,7 +345,7 @@ Fixpoint tree_of (v : value) : jtree :=
   | VBool b => JBool b
   | VInt z => JNum (dec z)
   | VFloat sci bits => if float_finite bits then JNum (float_token sci bits) else JNull
-  | VStr s => JStr (fix_str s)
+  | VStr _ s => JStr (fix_str s)
   | VArr l => JArr (map tree_of l)
   | VHash tn fs =>
       JObj ((s_Atype, JStr (fix_str tn)) ::
@@ -464,7 +464,7 @@ Fixpoint of_tree (t : jtree) : outcome :=
   | JNull => Ok VNil
   | JBool b => Ok (VBool b)
   | JNum tok => num_value tok
-  | JStr s => Ok (VStr s)
+  | JStr s => Ok (VStr false s)
   | JArr l => match all_ok (map of_tree l) with Some vs => Ok (VArr vs) | None => Crash end
   | JObj ms => build_hash (map (fun kt => match kt with (k, x) => (k, (x, of_tree x)) end) ms)
   end.
@@ -478,6 +478,7 @@ Definition unjson (s : list Z) : outcome :=
 Fixpoint norm (v : value) : value :=
   match v with
   | VFloat _ bits => VFloat false bits            (* the Scientific flag is a printing option, not data *)
+  | VStr _ s => VStr false s                      (* so is the raw-literal flag of a string *)
   | VArr l => VArr (map norm l)
   | VHash tn fs => VHash tn (map (fun kv => match kv with (k, x) => (KSym (key_text k), norm x) end) fs)
   | _ => v
@@ -499,7 +500,7 @@ Fixpoint wf (v : value) : bool :=
   | VBool _ => true
   | VInt z => in_i64 z
   | VFloat sci bits => negb (float_finite bits) || is_json_number (float_token sci bits)
-  | VStr s => str_ok s
+  | VStr _ s => str_ok s
   | VArr l => forallb wf l
   | VHash tn fs => str_ok tn && forallb (fun kv => match kv with (k, x) => str_ok (key_text k) && wf x end) fs
   end.
@@ -517,7 +518,7 @@ Fixpoint data (v : value) : bool :=
   | VBool _ => true
   | VInt z => in_i64 z
   | VFloat sci bits => float_finite bits && is_json_number (float_token sci bits)
-  | VStr s => str_valid s
+  | VStr _ s => str_valid s
   | VArr l => forallb data l
   | VHash tn fs =>
       str_valid tn && nodup_str (map (fun kv => key_text (fst kv)) fs)
@@ -560,7 +561,7 @@ Inductive denotes : jtree -> value -> Prop :=
 | D_int : forall z tok, int_token tok = Some z -> denotes (JNum tok) (VInt z)
 | D_float : forall sci b, float_finite b = true -> denotes (JNum (float_token sci b)) (VFloat sci b)
 | D_nonfinite : forall sci b, float_finite b = false -> denotes JNull (VFloat sci b)
-| D_str : forall s, denotes (JStr (fix_str s)) (VStr s)
+| D_str : forall raw s, denotes (JStr (fix_str s)) (VStr raw s)
 | D_arr : forall ts l, Forall2 denotes ts l -> denotes (JArr ts) (VArr l)
 | D_hash0 : forall tn, denotes (JObj [(s_Atype, JStr (fix_str tn))]) (VHash tn [])
 | D_hash : forall tn fs ms, fs <> [] ->
